@@ -30,6 +30,15 @@ def gen(ctx):
         # stars named like ordinary parameters of other signatures
         return random_sig(rng, 'abcd', 4, star_names=(('args', 'kwargs'), ('a', 'b'), ('c', 'kwargs')))
     fz = id_of_name('z')
+    # unary calls: merge(s) and embed(s) still go through classification, the upgrade path,
+    # the validating constructor and the copy of the provenance map (mask is unary by nature)
+    for _ in range(n // 10):
+        ps = pick()
+        d = mk_desc(ps, rng.choice([100, 100, None]))     # None: no provenance at all
+        if rng.random() < 0.5:
+            cases.append(Merge([d]))
+        else:
+            cases.append(Embed([d], rng.random() < 0.7, rng.random() < 0.7))
     for _ in range(n):
         k = rng.random()
         if k < 0.3:
@@ -85,8 +94,107 @@ def run_one(c, upgraded):
     return ('ok', r, any(issubclass(x.category, DeprecationWarning) for x in w))
 
 
-def examine(c, rc):
-    """All C15 clauses for one case; returns list of (key, what)."""
+# ---------------------------------------------------------------- input forms
+# 'U' the fully upgraded signature with a complete provenance map (what retrieval returns)
+# 'P' a plain inspect.Signature
+# 'H' an UpgradedSignature built by hand from upgraded parameters: its provenance map is the
+#     constructor's default, {} (no '+depths')
+# 'N' built by hand with a provenance map that names the parameters but has no '+depths'
+FORMS = 'UPHN'
+
+
+def build_form(d, form):
+    if form == 'U':
+        return build_sig(d, True)
+    if form == 'P':
+        return build_sig(d, False)
+    full = build_sig(d, True)
+    kw = {}
+    if form == 'N':
+        kw['sources'] = {k: list(v) for k, v in full.sources.items() if k != '+depths'}
+    return S.UpgradedSignature(list(full.parameters.values()),
+                               return_annotation=full.return_annotation,
+                               upgraded_return_annotation=full.upgraded_return_annotation, **kw)
+
+
+def case_inputs(c):
+    if c.op in ('merge', 'embed'):
+        return list(c.ds)
+    if c.op == 'mask':
+        return [c.d]
+    return [c.o, c.i]
+
+
+def call_forms(c, forms):
+    """The public operation of case c on inputs built in the given forms (one letter each)."""
+    sigs = [build_form(d, f) for d, f in zip(case_inputs(c), forms)]
+    if c.op == 'merge':
+        return PS.merge(*sigs)
+    if c.op == 'embed':
+        return PS.embed(*sigs, use_varargs=c.uva, use_varkwargs=c.uvk)
+    if c.op == 'mask':
+        ha, hk, hva, hvk = c.flags
+        return PS.mask(sigs[0], c.n, *[name_of(k) for k in c.names], hide_args=ha,
+                       hide_kwargs=hk, hide_varargs=hva, hide_varkwargs=hvk)
+    return PS.forwards(sigs[0], sigs[1], c.n, *[name_of(k) for k in c.names],
+                       hide_args=c.ha, hide_kwargs=c.hk, use_varargs=c.uva,
+                       use_varkwargs=c.uvk, partial=c.partial)
+
+
+def run_forms(c, forms):
+    """-> (kind, payload, warned)"""
+    with warnings.catch_warnings(record=True) as w:
+        warnings.simplefilter('always')
+        try:
+            sigs_r = call_forms(c, forms)
+        except Exception as e:  # noqa: BLE001
+            return ('err', classify_exc(e), any(issubclass(x.category, DeprecationWarning) for x in w))
+    return ('ok', sigs_r, any(issubclass(x.category, DeprecationWarning) for x in w))
+
+
+def pick_forms(c, rng):
+    """Two further form vectors for a case: all hand-built (H or N), and a random mix with at
+    least one input that is not fully upgraded."""
+    n = len(case_inputs(c))
+    hand = ''.join(rng.choice('HHN') for _ in range(n))
+    while True:
+        mix = ''.join(rng.choice(FORMS) for _ in range(n))
+        if mix != 'U' * n:
+            break
+    return [hand, mix]
+
+
+def examine_forms(c, rc, up, forms):
+    """The clauses of C15 for inputs in other forms than all-upgraded / all-plain; `up` is the
+    outcome for fully upgraded inputs."""
+    out = []
+    label = '%s with inputs built as %s (U upgraded, P plain inspect.Signature, H hand-built UpgradedSignature without sources, N hand-built with sources lacking \'+depths\')' % (c.show(), forms)
+    # building hand-made inputs from upgraded parameters emits nothing; only the operation is observed
+    r = run_forms(c, forms)
+    if r[0] == 'err':
+        if r[1] not in ('ValueError', 'Incompatible'):
+            out.append(('C15:exception', '%s raised %s' % (label, r[1])))
+        elif r[1] == 'ValueError' and rc and c.op in ('merge', 'embed'):
+            out.append(('C15:incompatible', '%s raised a plain ValueError for role-consistent inputs (IncompatibleSignatures expected)' % label))
+    else:
+        wf = wellformed(r[1])
+        if wf:
+            out.append(('C15:malformed', '%s: %s' % (label, wf)))
+    if 'P' in forms:
+        a = ('err', up[1]) if up[0] == 'err' else ('ok', tuple(q[:4] for q in describe_sig(up[1])['params']))
+        bb = ('err', r[1]) if r[0] == 'err' else ('ok', tuple(q[:4] for q in describe_sig(r[1])['params']))
+        if a != bb:
+            out.append(('C15:plain', '%s gives %s, upgraded inputs give %s' % (label, bb, a)))
+        # an operation that raises may do so before it looks at the plain input
+        if not r[2] and (r[0] == 'ok' or set(forms) == {'P'}):
+            out.append(('C15:warning', '%s: no DeprecationWarning although an input is a plain inspect.Signature' % label))
+    return out, r
+
+
+def examine(c, rc, forms=(), mism=None):
+    """All C15 clauses for one case; returns list of (key, what).  `forms`: further input-form
+    vectors (see FORMS); `mism` collects (forms, upgraded outcome, outcome) when inputs that
+    are all upgraded objects give other parameters than the fully upgraded ones."""
     out = []
     up = run_one(c, True)
     if up[0] == 'err':
@@ -112,18 +220,28 @@ def examine(c, rc):
             if wf:
                 out.append(('C15:malformed', '%s (plain inputs): %s' % (c.show(), wf)))
     c.upgraded = True
+    for fv in forms:
+        more, r = examine_forms(c, rc, up, fv)
+        out.extend(more)
+        if mism is not None and 'P' not in fv:
+            a = ('err', up[1]) if up[0] == 'err' else ('ok', tuple(describe_sig(up[1])['params']))
+            bb = ('err', r[1]) if r[0] == 'err' else ('ok', tuple(describe_sig(r[1])['params']))
+            if a != bb:
+                mism.append((fv, a, bb))
     return out
 
 
 def run(ctx, rep):
     cases = gen(ctx)
-    rep.rule = ('random merge/embed (2-3 inputs), mask (duplicate and foreign names, n up to len+2, random hide flags) and forwards cases over '
-                'U(2) with stars named like ordinary parameters, U(3) and random 4-name signatures; each also with plain inspect.Signature inputs; '
+    rep.rule = ('random merge/embed (1-3 inputs; unary calls with and without provenance), mask (duplicate and foreign names, n up to len+2, random hide flags) and forwards cases over '
+                'U(2) with stars named like ordinary parameters, U(3) and random 4-name signatures; each also with plain inspect.Signature inputs, with hand-built UpgradedSignature inputs (no sources / sources without +depths) and with a random mix of the forms; '
                 'non-trivial = raises, or result differs from first input')
     tr = run_cases(cases)
     rep.evaluations = len(tr)
     rcs = ask([('rolecons ' + tok_sigs(c.ds)) if c.op in ('merge', 'embed') else 'rolecons 0' for c in cases])
     hist = {}
+    fhist = {}
+    frng = ctx.rng('forms')
     for (c, m, i), rc in zip(tr, rcs):
         if (m[0], m[1] if m[0] == 'err' else None) != (i[0], i[1] if i[0] == 'err' else None):
             rep.corr_break('error class', c.show(), str(m[:2] if m[0] == 'err' else 'ok'), str(i[:2] if i[0] == 'err' else 'ok'))
@@ -133,9 +251,20 @@ def run(ctx, rep):
         hist[k] = hist.get(k, 0) + 1
         if i[0] == 'err' or proj_shape(i) != proj_shape(('ok', (c.ds[0] if hasattr(c, 'ds') else getattr(c, 'd', None) or c.o))):
             rep.distinct.add(c.request())
-        for key, what in examine(c, rc == 'T'):
-            rep.violation(key, what, dict(c.data(), kind='examine', rc=(rc == 'T')))
+        forms = pick_forms(c, frng)
+        for fv in forms:
+            fk = '%s/%d:%s' % (c.op, len(fv), ''.join(sorted(set(fv))))
+            fhist[fk] = fhist.get(fk, 0) + 1
+        mism = []
+        for key, what in examine(c, rc == 'T', forms, mism):
+            rep.violation(key, what, dict(c.data(), kind='examine', rc=(rc == 'T'), forms=forms))
+        for fv, a, bb in mism:
+            # not a clause of C15, but the model has no notion of the form of an input: the
+            # parameters it predicts hold for every form
+            rep.corr_break('parameters independent of the form of upgraded inputs',
+                           '%s inputs built as %s' % (c.show(), fv), str(a), str(bb))
     rep.coverage['outcome_histogram'] = hist
+    rep.coverage['input_forms_histogram'] = fhist
     nret = retrieval_fallback(ctx, rep)
     rep.coverage['retrieval_fallback_wrappers'] = nret
     rep.evaluations += nret
@@ -205,5 +334,5 @@ def replay(ctx, data):
         bad = retrieval_one(r['source'])
         return ('sigtools.signature(wrapper) raised %s' % bad) if bad else None
     c = case_from_data(r)
-    res = examine(c, r.get('rc', False))
+    res = examine(c, r.get('rc', False), r.get('forms', ()))
     return res[0][1] if res else None
